@@ -85,14 +85,14 @@ Section Events.
   Lemma extract_folders_ok fs a n k e :
     In e (fst (extract_folders cwd base dec okd okw fs a k n)) -> ev_ok base e.
   Proof.
-    revert k; induction n as [|n IH]; intros k; simpl; [tauto|].
+    revert k; induction n as [|n IH]; intros k; cbn [extract_folders]; [simpl; tauto|].
     destruct (pick k fs a) as [|f0 mine] eqn:P; [apply IH|].
     destruct (dec k) as [len|]; [|simpl; tauto].
+    pose proof (write_files_ok (f0 :: mine) 0 len) as Hes.
     destruct (write_files cwd base okd okw (f0 :: mine) 0 len) as [es ok] eqn:W.
-    assert (Hes : forall e', In e' es -> ev_ok base e').
-    { intros e' H. apply (write_files_ok (f0 :: mine) 0 len). rewrite W. exact H. }
-    destruct ok; [|simpl; apply Hes].
-    destruct (extract_folders cwd base dec okd okw fs a (S k) n) as [es2 ok2] eqn:X. simpl.
+    cbn [fst] in Hes.
+    destruct ok; [|cbn [fst]; apply Hes].
+    destruct (extract_folders cwd base dec okd okw fs a (S k) n) as [es2 ok2] eqn:X. cbn [fst].
     rewrite in_app_iff. intros [H|H]; [apply Hes; exact H|]. apply (IH (S k)). rewrite X. exact H.
   Qed.
 
@@ -145,14 +145,14 @@ Section Events.
 
   Lemma extract_folders_no_reads fs a n k : reads (fst (extract_folders cwd base dec okd okw fs a k n)) = [].
   Proof.
-    revert k; induction n as [|n IH]; intros k; simpl; [reflexivity|].
+    revert k; induction n as [|n IH]; intros k; cbn [extract_folders]; [reflexivity|].
     destruct (pick k fs a) as [|f0 mine]; [apply IH|].
     destruct (dec k) as [len|]; [|reflexivity].
     pose proof (write_files_no_reads (f0 :: mine) 0 len) as W.
-    destruct (write_files cwd base okd okw (f0 :: mine) 0 len) as [es ok]. simpl in W.
+    destruct (write_files cwd base okd okw (f0 :: mine) 0 len) as [es ok]. cbn [fst] in W.
     destruct ok; [|exact W].
     specialize (IH (S k)). destruct (extract_folders cwd base dec okd okw fs a (S k) n) as [es2 ok2].
-    simpl in *. unfold reads in *. rewrite flat_map_app, W, IH. reflexivity.
+    cbn [fst] in *. unfold reads in *. rewrite flat_map_app, W, IH. reflexivity.
   Qed.
 
   Lemma extractall_no_reads h : reads (fst (extractall cwd base dec okd okw h)) = [].
@@ -179,7 +179,7 @@ Proof.
   destruct (extractall cwd base dec okd okw h) as [es ok]. simpl in A.
   destruct ok; [|apply A].
   rewrite in_app_iff. intros [H|H]; [apply A; exact H|].
-  left. exact (read_back_ok cwd base Hn _ _ _ H).
+  left. exact (read_back_ok cwd base okd okw Hn _ _ _ H).
 Qed.
 
 Lemma run_7z_reads_written cwd base dec okd okw skip max_mem host h p :
@@ -192,7 +192,7 @@ Proof.
   destruct (extractall cwd base dec okd okw h) as [es ok]. simpl in NR.
   destruct ok; [|rewrite NR; simpl; tauto].
   unfold reads, writes. rewrite !flat_map_app. fold (reads es). rewrite NR. simpl.
-  intro H. apply (read_back_reads cwd base Hn) in H as [I C].
+  intro H. apply (read_back_reads cwd base okd okw Hn) in H as [I C].
   split; [|exact C]. apply in_app_iff. left.
   rewrite (fresh_no_host _ _ _ F C), orb_false_r in I. apply mem_str_In. exact I.
 Qed.
@@ -248,11 +248,12 @@ Proof. intros [->|[k [r ->]]]; simpl; unfold b; simpl; lia. Qed.
 Lemma step_live P st a n :
   live n (snd (step P st a)) = n - b st + b (fst (step P st a)).
 Proof.
-  destruct st as [|k rest|]; destruct a; simpl; unfold b; simpl; try lia.
-  - destruct (pre_fail P); simpl; [lia|]. destruct (extract_fail P); simpl; [lia|].
-    rewrite (live_leave (n + 1) _ (seek_shape _)). unfold b. lia.
-  - destruct k; simpl; [|lia]. rewrite (live_leave n _ (seek_shape _)). unfold b. lia.
-  - rewrite (live_leave n _ (seek_shape _)). unfold b. lia.
+  destruct st as [|k rest|]; destruct a; try destruct k;
+    cbn [step]; unfold b; cbn [fst snd is_susp live]; try lia;
+    try (rewrite (live_leave n _ (seek_shape _)); unfold b; lia).
+  destruct (pre_fail P); cbn [fst snd is_susp live]; [lia|].
+  destruct (extract_fail P); cbn [fst snd is_susp live]; [lia|].
+  rewrite (live_leave (n + 1) _ (seek_shape _)). unfold b. lia.
 Qed.
 
 Lemma run_live P h st n :
@@ -276,7 +277,7 @@ Proof.
 Qed.
 
 Lemma terminal_done P st a : terminal_action a = true -> fst (step P st a) = Done.
-Proof. destruct st as [|k r|]; destruct a; simpl; try discriminate; reflexivity. Qed.
+Proof. destruct st as [|k r|]; destruct a; try destruct k; simpl; try discriminate; reflexivity. Qed.
 
 Lemma tempdir_balance P h :
   live 0 (snd (run P NotStarted h)) = if is_susp (fst (run P NotStarted h)) then 1 else 0.
